@@ -4,8 +4,7 @@ Line protocol of the C03 model driver.
   atom        n | t | f | i:<int> | d:<coeff>:<exp> | s:<hex> | y:<hex>
               (null, true, false, int, float = coeff·10^exp exactly as apd holds it,
                string, bytes; hex "-" = empty)
-  constraint  a:<atom> | t:<null|bool|int|float|number|string|bytes|top> is NOT used for null
-              (null is the atom) | b:<lt|le|gt|ge|ne|mat|nmat>:<atom> | r:<range name>
+  constraint  a:<atom> | t:<bool|int|float|number|string|bytes|top> | b:<lt|le|gt|ge|ne|mat|nmat>:<atom> | r:<range name>
   list        constraints joined by ",", "-" for the empty list
   kind        a decimal bit mask (adt.Kind)
 
@@ -68,10 +67,10 @@ def parseOp : String → Option Op
   | "ne" => some .ne | "mat" => some .mat | "nmat" => some .nmat
   | _ => none
 
-def parseKindName : String → Option Kind
-  | "bool" => some Kind.bool | "int" => some Kind.int | "float" => some Kind.float
-  | "number" => some Kind.number | "string" => some Kind.string | "bytes" => some Kind.bytes
-  | "top" => some Kind.top | "null" => some Kind.null
+def parseKindName : String → Option BType
+  | "bool" => some .bool | "int" => some .int | "float" => some .float
+  | "number" => some .number | "string" => some .string | "bytes" => some .bytes
+  | "top" => some .top
   | _ => none
 
 def parseRange : String → Option Range
